@@ -227,23 +227,55 @@ func getShard(sel sharding.ShardSelector, n int, h uint64) (idx int, panicked st
 	return
 }
 
-var functionByHexLen = map[int]remoteexecution.DigestFunction_Value{
-	32: remoteexecution.DigestFunction_MD5, 40: remoteexecution.DigestFunction_SHA1,
-	64: remoteexecution.DigestFunction_SHA256, 96: remoteexecution.DigestFunction_SHA384,
-	128: remoteexecution.DigestFunction_SHA512,
+// Every digest function pkg/digest supports: REv2 enum value -> hash size in bytes.
+var hashSizeOfFunction = map[int]int{
+	int(remoteexecution.DigestFunction_SHA256): 32, int(remoteexecution.DigestFunction_SHA1): 20,
+	int(remoteexecution.DigestFunction_MD5): 16, int(remoteexecution.DigestFunction_SHA384): 48,
+	int(remoteexecution.DigestFunction_SHA512): 64, int(remoteexecution.DigestFunction_SHA256TREE): 32,
+	int(remoteexecution.DigestFunction_BLAKE3): 32, int(remoteexecution.DigestFunction_GITSHA1): 20,
+}
+
+var allFunctions = []int{
+	int(remoteexecution.DigestFunction_SHA256), int(remoteexecution.DigestFunction_SHA1), int(remoteexecution.DigestFunction_MD5),
+	int(remoteexecution.DigestFunction_SHA384), int(remoteexecution.DigestFunction_SHA512), int(remoteexecution.DigestFunction_SHA256TREE),
+	int(remoteexecution.DigestFunction_BLAKE3), int(remoteexecution.DigestFunction_GITSHA1),
+}
+
+// pickFunction draws a digest function (all eight, the two-digit enum value GITSHA1 a bit more often).
+func pickFunction(r *hx.Rand) (fn, hashBytes int) {
+	fn = allFunctions[r.Intn(len(allFunctions))]
+	if r.Chance(1, 8) {
+		fn = int(remoteexecution.DigestFunction_GITSHA1)
+	}
+	return fn, hashSizeOfFunction[fn]
+}
+
+// functionsOfSize: the digest functions with hashes of n bytes.
+func functionsOfSize(n int) []int {
+	var out []int
+	for _, f := range allFunctions {
+		if hashSizeOfFunction[f] == n {
+			out = append(out, f)
+		}
+	}
+	return out
+}
+
+func mkTok(inst string, fn int, hb []byte, size int) string {
+	return fmt.Sprintf("%s:%d:%s:%d", inst, fn, hex.EncodeToString(hb), size)
 }
 
 var instanceNames = []string{"", "a", "b/c", "x/y/z"}
 
 func parseDigest(tok string) (d digest.Digest, first8 uint64, ok bool) {
 	p := strings.Split(tok, ":")
-	if len(p) != 3 {
+	if len(p) != 4 {
 		return digest.BadDigest, 0, false
 	}
-	fn, okf := functionByHexLen[len(p[1])]
-	size, err := strconv.ParseInt(p[2], 10, 64)
-	raw, err2 := hex.DecodeString(p[1])
-	if !okf || err != nil || err2 != nil || size < 0 || p[1] != strings.ToLower(p[1]) {
+	fn, err0 := strconv.Atoi(p[1])
+	size, err := strconv.ParseInt(p[3], 10, 64)
+	raw, err2 := hex.DecodeString(p[2])
+	if err0 != nil || err != nil || err2 != nil || size < 0 || p[2] != strings.ToLower(p[2]) || hashSizeOfFunction[fn] != len(raw) || len(raw) < 8 {
 		return digest.BadDigest, 0, false
 	}
 	okInst := false
@@ -253,14 +285,14 @@ func parseDigest(tok string) (d digest.Digest, first8 uint64, ok bool) {
 	if !okInst {
 		return digest.BadDigest, 0, false
 	}
-	if guard(func() { d = digest.MustNewDigest(p[0], fn, p[1], size) }) != "" {
+	if guard(func() { d = digest.MustNewDigest(p[0], remoteexecution.DigestFunction_Value(fn), p[2], size) }) != "" {
 		return digest.BadDigest, 0, false
 	}
 	return d, binary.BigEndian.Uint64(raw[:8]), true
 }
 
 func digestTok(d digest.Digest) string {
-	return fmt.Sprintf("%s:%s:%d", d.GetInstanceName().String(), d.GetHashString(), d.GetSizeBytes())
+	return fmt.Sprintf("%s:%d:%s:%d", d.GetInstanceName().String(), int(d.GetDigestFunction().GetEnumValue()), d.GetHashString(), d.GetSizeBytes())
 }
 
 func setToks(s digest.Set) []string {
@@ -1576,28 +1608,28 @@ func genAccessCase(r *hx.Rand, run *hx.Run, maxN int) []string {
 		script = append(script, "#mode free")
 		run.Count("fm-mode:free-running")
 	}
-	lens := []int{16, 20, 32, 32, 32, 48, 64}
-	// a pool of digests, some of them siblings sharing their first 8 hash bytes
+	// a pool of digests (all eight digest functions), some of them siblings sharing their first 8 hash bytes
 	var pool []string
 	nd := r.Range(1, 10)
 	for len(pool) < nd {
-		l := lens[r.Intn(len(lens))]
+		fn, l := pickFunction(r)
+		run.Count(fmt.Sprintf("digest-function:%d", fn))
 		hb := r.Bytes(l)
 		if r.Chance(1, 3) {
 			// aim at a boundary of some shard
 			binary.BigEndian.PutUint64(hb[:8], targetedHash(ss[r.Intn(n)], boundary[r.Intn(len(boundary))]))
 		}
-		tok := fmt.Sprintf("%s:%s:%d", instanceNames[r.Intn(len(instanceNames))], hex.EncodeToString(hb), r.PickInt(0, 1, 5, 1000000))
+		tok := mkTok(instanceNames[r.Intn(len(instanceNames))], fn, hb, r.PickInt(0, 1, 5, 1000000))
 		pool = append(pool, tok)
 		for r.Chance(1, 3) && len(pool) < nd+3 {
 			// sibling: same leading 8 bytes, other instance name / size / tail / digest function
-			l2 := lens[r.Intn(len(lens))]
+			fn2, l2 := pickFunction(r)
 			hb2 := r.Bytes(l2)
 			copy(hb2[:8], hb[:8])
 			if r.Chance(1, 2) && l2 == l {
 				copy(hb2, hb) // identical hash, only instance name and size differ
 			}
-			pool = append(pool, fmt.Sprintf("%s:%s:%d", instanceNames[r.Intn(len(instanceNames))], hex.EncodeToString(hb2), r.PickInt(0, 5, 77)))
+			pool = append(pool, mkTok(instanceNames[r.Intn(len(instanceNames))], fn2, hb2, r.PickInt(0, 5, 77)))
 			run.Count("digest:sibling-same-leading-bytes")
 		}
 		for r.Chance(1, 2) && len(pool) < nd+6 {
@@ -1605,7 +1637,7 @@ func genAccessCase(r *hx.Rand, run *hx.Run, maxN int) []string {
 			// adjacent in the sorted set, but (unlike a sibling) free to belong to another shard
 			hb2 := r.Bytes(l)
 			copy(hb2[:r.Range(1, 7)], hb)
-			pool = append(pool, fmt.Sprintf("%s:%s:%d", instanceNames[r.Intn(len(instanceNames))], hex.EncodeToString(hb2), r.PickInt(0, 5, 77)))
+			pool = append(pool, mkTok(instanceNames[r.Intn(len(instanceNames))], fn, hb2, r.PickInt(0, 5, 77)))
 			run.Count("digest:cousin-common-prefix-1..7-bytes")
 		}
 	}
@@ -1657,7 +1689,7 @@ func genAccessCase(r *hx.Rand, run *hx.Run, maxN int) []string {
 			run.Count("op:GetFromComposite")
 		default:
 			t := pool[r.Intn(len(pool))]
-			script = append(script, "get "+t, "put "+t, "fm "+t, "getc "+t+" "+pool[r.Intn(len(pool))], "route "+strings.Split(t, ":")[1])
+			script = append(script, "get "+t, "put "+t, "fm "+t, "getc "+t+" "+pool[r.Intn(len(pool))], "route "+strings.Split(t, ":")[2])
 			run.Count("op:GetFromComposite")
 		}
 	}
@@ -1672,7 +1704,8 @@ func genPrefixFamilyCase(r *hx.Rand, run *hx.Run, maxN int) []string {
 	ss := genShards(r, n)
 	run.Count(fmt.Sprintf("access-shards:%d", n))
 	script := []string{selLine(ss)}
-	l := []int{16, 20, 32, 32, 48, 64}[r.Intn(6)]
+	fn, l := pickFunction(r)
+	run.Count(fmt.Sprintf("digest-function:%d", fn))
 	var all []string
 	for p := 1; p <= 7; p++ {
 		stem := r.Bytes(l)
@@ -1685,7 +1718,7 @@ func genPrefixFamilyCase(r *hx.Rand, run *hx.Run, maxN int) []string {
 			if r.Chance(1, 3) {
 				inst, size = instanceNames[r.Intn(len(instanceNames))], r.PickInt(0, 5, 77)
 			}
-			fam = append(fam, fmt.Sprintf("%s:%s:%d", inst, hex.EncodeToString(hb), size))
+			fam = append(fam, mkTok(inst, fn, hb, size))
 		}
 		fam = dedupSorted(fam)
 		run.CountN("digest:cousin-common-prefix-1..7-bytes", len(fam))
@@ -1715,10 +1748,11 @@ func genPrefixFamilyCase(r *hx.Rand, run *hx.Run, maxN int) []string {
 var prefixesOfInterest = []uint64{0, 0, 1, 1 << 63, ^uint64(0), 2, 255, 1 << 32}
 
 func digestWithPrefix(r *hx.Rand, prefix uint64) string {
-	hb := r.Bytes([]int{16, 20, 32, 32, 48, 64}[r.Intn(6)])
+	fn, l := pickFunction(r)
+	hb := r.Bytes(l)
 	binary.BigEndian.PutUint64(hb[:8], prefix)
 	// never size 0: a configured CAS stack answers for the empty blob itself (EmptyBlobInjecting), above the sharding layer
-	return fmt.Sprintf("%s:%s:%d", instanceNames[r.Intn(len(instanceNames))], hex.EncodeToString(hb), r.PickInt(1, 5, 77))
+	return mkTok(instanceNames[r.Intn(len(instanceNames))], fn, hb, r.PickInt(1, 5, 77))
 }
 
 // genFreshCase: every rotation of a shard list gets a brand new composite, and the very first
